@@ -5,7 +5,9 @@
 (* numbers taken under the collection lock (hook events) or from the same  *)
 (* counter (call / return events of the driver), pre-projected to a fixed  *)
 (* record shape by bin/check_conc.py:                                      *)
-(*   [ev, w, i, id, p, vec, val, ok]                                       *)
+(*   [ev, w, i, id, p, vec, val, alt, ok]                                  *)
+(* (alt: the other prefix a top-level marker can stand for when the next   *)
+(* batch of that writer touches only the child collection; else = val)     *)
 (* Several runs are concatenated, separated by "reset" events.             *)
 (***************************************************************************)
 EXTENDS Integers, Sequences, FiniteSets, TLC, Json
@@ -83,7 +85,7 @@ TGetCall ==
     /\ Step /\ UNCHANGED <<executed, returned, at, snapv, lo>>
 TGetRet ==
     /\ Is("getret")
-    /\ glo[E.id] <= E.val /\ E.val <= executed[E.w]
+    /\ \E v \in {E.val, E.alt} : glo[E.id] <= v /\ v <= executed[E.w]
     /\ Step /\ UNCHANGED <<executed, returned, at, snapv, lo, glo>>
 
 TReset ==
